@@ -28,6 +28,9 @@ func (w *writeSet) add(o *writeSet) {
 func (vc *VC) havocWriteSet(st *State, ws *writeSet) {
 	for _, k := range sortedKeys(ws.fams) {
 		s := ws.fams[k]
+		if k == allocKey {
+			continue // the clock only advances (growAlloc below)
+		}
 		if strings.HasPrefix(k, "G$") {
 			if _, ok := st.heap[k]; ok || true {
 				st.heap[k] = vc.fresh("H$"+k, s)
